@@ -126,9 +126,23 @@ func (x *XmlNode) ContentTrim() string {
 	return strings.TrimSpace(string(x.Content))
 }
 
+// text of a leaf element: white space is part of a string value, for all other types
+// surrounding white space is not significant
+func (x *XmlNode) leafContent(m meta.Leafable) string {
+	t := m.Type()
+	if t.Format().Single() == val.FmtLeafRef {
+		t = t.Resolve()
+	}
+	switch t.Format().Single() {
+	case val.FmtString, val.FmtUnion:
+		return string(x.Content)
+	}
+	return x.ContentTrim()
+}
+
 func (x *XmlNode) field(m meta.Leafable) (string, bool) {
 	if ndx := x.Find(0, m); ndx >= 0 {
-		return x.Nodes[ndx].ContentTrim(), true
+		return x.Nodes[ndx].leafContent(m), true
 	}
 	return "", false
 }
@@ -145,12 +159,12 @@ func (x *XmlNode) Field(r node.FieldRequest, hnd *node.ValueHandle) error {
 		// The XML elements representing list entries MAY be interleaved with elements
 		// for siblings of the list
 		for ndx >= 0 {
-			found = append(found, x.Nodes[ndx].ContentTrim())
+			found = append(found, x.Nodes[ndx].leafContent(r.Meta))
 			ndx = x.Find(ndx+1, r.Meta)
 		}
 		hnd.Val, err = node.NewValue(r.Meta.Type(), found)
 	} else {
-		hnd.Val, err = node.NewValue(r.Meta.Type(), x.Nodes[ndx].ContentTrim())
+		hnd.Val, err = node.NewValue(r.Meta.Type(), x.Nodes[ndx].leafContent(r.Meta))
 	}
 	return err
 }
